@@ -165,6 +165,10 @@ class Explorer:
             a, b = as_text(self.value(e.left, env)), as_text(self.value(e.right, env))
             if a is not None or b is not None:
                 return _text(list((a or Text((None,))).parts) + list((b or Text((None,))).parts))
+        if isinstance(e, ast.UnaryOp) and isinstance(e.op, (ast.USub, ast.UAdd)):
+            o_ = self.value(e.operand, env)
+            if isinstance(o_, (int, float)) and not isinstance(o_, bool):
+                return -o_ if isinstance(e.op, ast.USub) else +o_
         if isinstance(e, ast.BinOp) and isinstance(e.op, (ast.Add, ast.Sub, ast.Mult, ast.FloorDiv, ast.Mod)):
             # arithmetic / concatenation of plain values the path knows (they may come from model objects)
             a_, b_ = self.value(e.left, env), self.value(e.right, env)
